@@ -22,7 +22,7 @@ RULE = ("for each of the three field configurations (pysnark.zkinterface.backend
         "agree on header and constraints; with the private values re-drawn circuit.zkif is byte-identical. Plus deterministic large traces (1 to 1025 "
         "[thorough: 4097] constraints) per configuration. Non-trivial = "
         ">= 1 public, >= 1 private, >= 1 constraint and a value or scalar outside [0,p); distinct by (config, trace) digest.")
-RULE += " Extensions (seeded rounds 10-15): 32769 constraints (thorough: 40001, 65537), same-shaped stale files, a failed prove() in the history. Coefficient sweep: every coefficient k, -k, p-k, p+k for k = 1..10001 (thorough 70001) and around the powers of two and ten above, on a wire and on the constant."
+RULE += " Extensions (seeded rounds 10-15): 32769 constraints (thorough: 40001, 65537), same-shaped stale files, a failed prove() in the history. Coefficient sweep: every coefficient k, -k, p-k, p+k for k = 1..10001 and around the powers of two and ten above, on a wire and on the constant."
 
 CONFIGS = ["zkinterface", "zkifbellman", "zkifbulletproofs"]
 
@@ -286,7 +286,7 @@ def run(ctx):
         for k in range(5):
             jobs.append(dict(name=c, seed=ctx.seed * 1000 + 31 * i + k, n_examples=n, programs=(k % 2 == 0)))
     ctx.stats = core.run_shards("harness.checks.c11", "shard", jobs)
-    sizes = [1, 255, 256, 1000, 1001, 1025, "pub255", "pub256", "pub257", "coef10001"] if ctx.tier == "quick" else [1, 85, 255, 256, 257, 999, 1000, 1001, 1024, 1025, 2047, 2501, 4097, "pub255", "pub256", "pub257", "pub1000", "pub65537", "coef70001"]
+    sizes = [1, 255, 256, 1000, 1001, 1025, "pub255", "pub256", "pub257", "coef10001"] if ctx.tier == "quick" else [1, 85, 255, 256, 257, 999, 1000, 1001, 1024, 1025, 2047, 2501, 4097, "pub255", "pub256", "pub257", "pub1000", "pub65537", "coef10001"]
     lj = [dict(name=c, sizes=sizes[i::4]) for c in CONFIGS for i in range(4)]
     # more than 2^15 / 2^16 constraints in one run (a writer may split the constraint system over several messages)
     lj += [dict(name=CONFIGS[0], sizes=[32769])] if ctx.tier == "quick" else [dict(name=c, sizes=[n_]) for c in CONFIGS for n_ in (32769, 40001, 65537)]
